@@ -223,3 +223,51 @@ def _derives_from_lid(fl, node, lid):
                         if x.c[1] is not None:
                             st.append(x.c[1])
     return False
+
+
+# settings of the property lists handed to H5Fcreate / H5Fopen that are known (libhdf5 documentation) to break a clause of C11/C02
+FILE_PLIST_DENY = {
+    'H5Pset_libver_bounds': 'with a LATEST low bound libhdf5 writes a version-3 superblock whose "open for write" flag is only cleared by a real close: '
+                            'a writer killed after flush() leaves a file that no process can open',
+    'H5Pset_fclose_degree': 'a WEAK/SEMI close degree keeps the file open (or makes H5Fclose fail) while object ids are alive: close() no longer releases the file',
+    'H5Pset_fapl_core': 'the core driver keeps the file in memory; without backing store nothing reaches the disk',
+    'H5Pset_fapl_split': 'split/multi drivers scatter the file over several files; a single path no longer holds the data',
+    'H5Pset_fapl_multi': 'split/multi drivers scatter the file over several files; a single path no longer holds the data',
+    'H5Pset_fapl_family': 'the family driver scatters the file over several files',
+    'H5Pset_file_locking': 'disabling file locking lets a second writer open the file',
+}
+
+
+def run_fapl(prog, rep):
+    """the property lists given to H5Fcreate/H5Fopen carry no setting that is known to defeat flush/close completeness"""
+    rule = rep.rule('R-FAPL', 'property lists handed to H5Fcreate / H5Fopen carry no setting known to defeat flush/close completeness (deny list with reasons)', floor=2)
+    from ..sem import Sem, Flow, term, unwrap, real_args
+    sem = Sem(prog)
+    n = 0
+    for f in sorted(prog.funcs.values(), key=lambda f: (f.file, f.line)):
+        if f.body is None or not (f.cls or '').startswith('nix::hdf5::'):
+            continue
+        opens = [c for c in f.calls() if c.callee.get('name') in ('H5Fcreate', 'H5Fopen')]
+        if not opens:
+            continue
+        denied = [c for c in f.calls() if c.callee.get('name') in FILE_PLIST_DENY]
+        for c in opens:
+            n += 1
+            args = real_args(c)
+            plists = args[2:]
+            bad = []
+            for a in plists:
+                t = term(unwrap(a))
+                if a.get('macro') == 'H5P_DEFAULT' or (isinstance(t, tuple) and t and t[0] == 'k'):
+                    continue
+                # a property list object: every denied setter applied to the same object in this function
+                base = [x for x in a.walk() if x.k == 'ref' and x.decl.get('kind') in ('local', 'param')]
+                names = set(x.decl.get('name') for x in base)
+                for d in denied:
+                    if any(x.k == 'ref' and x.decl.get('name') in names for x in d.walk()):
+                        bad.append('%s on %s (line %s): %s' % (d.callee.get('name'), '/'.join(sorted(names)), d.l, FILE_PLIST_DENY[d.callee.get('name')]))
+            rule.check(not bad, '%s|%s' % (f.q, c.callee.get('name')), rep.where(c), f.label(), '%s with %s' % (c.callee.get('name'), ', '.join(a.src(20) for a in plists)), '; '.join(bad[:2]))
+    # nobody else opens files
+    if n < 2:
+        raise AnalysisBroken('R-FAPL: H5Fcreate/H5Fopen call sites vanished (%d)' % n)
+    return rule
